@@ -18,7 +18,8 @@ Lemma bundled_tables_exact :
   db_tcp_request bundled_db = db_tcp_request bundled_spec_db /\
   db_tcp_response bundled_db = db_tcp_response bundled_spec_db /\
   db_http_request bundled_db = db_http_request bundled_spec_db /\
-  db_http_response bundled_db = db_http_response bundled_spec_db.
+  db_http_response bundled_db = db_http_response bundled_spec_db /\
+  db_ua_os bundled_db = db_ua_os bundled_spec_db.
 Proof. vm_compute. repeat split; reflexivity. Qed.
 
 Lemma bundled_counts :
@@ -41,59 +42,38 @@ Lemma bundled_sig_lines_all :
   forallb canonical_tcp bundled_tcp_sigs = true /\ forallb canonical_http bundled_http_sigs = true.
 Proof. vm_compute. repeat split; reflexivity. Qed.
 
-(* the open finding on the file itself: nine ua_os rules are written, three are loaded *)
-Lemma bundled_ua_os_lossy :
-  length (db_ua_os bundled_spec_db) = 9%nat /\ length (db_ua_os bundled_db) = 3%nat /\
-  existsb lossy_line bundled_lines = true.
+(* finding C06-list-remainder is repaired: the nine ua_os rules written in the file are loaded *)
+Lemma bundled_ua_os_former_witness_agrees :
+  length (db_ua_os bundled_spec_db) = 9%nat /\ length (db_ua_os bundled_db) = 9%nat /\
+  db_ua_os bundled_db = db_ua_os bundled_spec_db.
 Proof. vm_compute. repeat split; reflexivity. Qed.
 
-(* ---------- known class on texts (Spec.DbLoadSpec.known_db): witnesses ---------- *)
-(* ua_os with a bracketed value: the rule and everything after it is lost *)
-Lemma known_ua_os_text_refuted :
-  let t := bs "ua_os = Linux,iOS=[iPad],BSD" in
-  known_db t = true /\ (exists d, spec_load t = VOk d /\ length (db_ua_os d) = 3%nat) /\
-  (exists d, load t = Some d /\ length (db_ua_os d) = 2%nat).
-Proof. vm_compute. repeat split; eexists; split; reflexivity. Qed.
-(* a classes line the p0f grammar does not allow is accepted and cut short instead of rejected *)
-Lemma known_classes_text_refuted :
-  let t := bs "classes = win, unix" in
-  known_db t = true /\ spec_load t = VErr /\ (exists d, load t = Some d /\ db_classes d = [bs "win"]).
+(* ---------- former known class C06-list-remainder: the old witnesses now agree ---------- *)
+Lemma list_remainder_former_witness_agrees :
+  (let t := bs "ua_os = Linux,iOS=[iPad],BSD" in
+   load t = verdict_opt (spec_load t) /\ exists d, load t = Some d /\ length (db_ua_os d) = 3%nat) /\
+  (let t := bs "classes = win, unix" in spec_load t = VErr /\ load t = None) /\
+  (let t := bs "[tcp:request]x]" in spec_load t = VErr /\ load t = None).
 Proof. vm_compute. repeat split. eexists; split; reflexivity. Qed.
-(* text after the closing bracket of a section header is ignored *)
-Lemma known_module_text_refuted :
-  let t := bs "[tcp:request]x]" in
-  known_db t = true /\ spec_load t = VErr /\ (exists d, load t = Some d).
-Proof. vm_compute. repeat split. eexists; reflexivity. Qed.
 
-(* ---------- known class C06-unknown-item-skipped: witnesses ---------- *)
-(* a misspelt module header: p0f.fp has no such module, the text is not a database; the loader returns an
-   empty database (label and signature dropped) *)
-Lemma known_unknown_module_refuted :
-  let t := bs "[tcp:reqeust]
+(* ---------- former known class C06-unknown-item-skipped (repaired): the old witnesses now agree ---------- *)
+Lemma unknown_item_former_witness_agrees :
+  (let t := bs "[tcp:reqeust]
+label = s:unix:Linux:
+sig = *:64:0:*:*,*:::0" in spec_load t = VErr /\ load t = None) /\
+  (let t := bs "[tcp:request]
+label = s:unix:Linux:
+sgi = *:64:0:*:*,*:::0" in spec_load t = VErr /\ load t = None) /\
+  (let t := bs "[mtu]
+label = DSL
+sys = x
+sig = 1492" in spec_load t = VErr /\ load t = None) /\
+  (let t := bs "[tcp:request]
 label = s:unix:Linux:
 sig = *:64:0:*:*,*:::0" in
-  known_unknown_item t = true /\ known_db t = true /\ spec_load t = VErr /\
-  (exists d, load t = Some d /\ table_counts (db_tcp_request d) = (0, 0)%nat).
-Proof. vm_compute. repeat split. eexists; split; reflexivity. Qed.
-(* a misspelt key inside a module: the signature is dropped, the label stays *)
-Lemma known_unknown_key_refuted :
-  let t := bs "[tcp:request]
-label = s:unix:Linux:
-sgi = *:64:0:*:*,*:::0" in
-  known_unknown_item t = true /\ known_db t = true /\ spec_load t = VErr /\
-  (exists d, load t = Some d /\ table_counts (db_tcp_request d) = (1, 0)%nat).
-Proof. vm_compute. repeat split. eexists; split; reflexivity. Qed.
-(* the same two texts spelt correctly are databases, read alike by both sides *)
-Lemma unknown_item_contrast :
-  let t := bs "[tcp:request]
-label = s:unix:Linux:
-sig = *:64:0:*:*,*:::0" in
-  known_db t = false /\ (exists d, spec_load t = VOk d /\ load t = Some d /\ table_counts (db_tcp_request d) = (1, 1)%nat).
-Proof. vm_compute. split; [reflexivity|]. eexists; repeat split; reflexivity. Qed.
+   exists d, spec_load t = VOk d /\ load t = Some d /\ table_counts (db_tcp_request d) = (1, 1)%nat).
+Proof. vm_compute. repeat split. eexists; repeat split; reflexivity. Qed.
 
 (* ---------- the bundled file and the domain of the text-level theorem ---------- *)
-Lemma bundled_text_domain :
-  ascii_edges bundled_text = true /\ known_db bundled_text = true /\ known_unknown_item bundled_text = false /\
-  ascii_edges bundled_text_plain = true /\ known_db bundled_text_plain = false /\
-  length (filter lossy_line bundled_lines) = 1%nat.
-Proof. vm_compute. repeat split; reflexivity. Qed.
+Lemma bundled_text_domain : ascii_edges bundled_text = true.
+Proof. vm_compute. reflexivity. Qed.
